@@ -291,6 +291,14 @@ pub fn bodies(tier: &str) -> Vec<BodySpec> {
         b(KvBody { name: "tiny-memtable+worker", workers: 1, tiny: true, presealed: 0, jrot: false, initial: vec![], threads: vec![vec![Ins("a", "1"), Ins("b", "1")], vec![Ins("a", "2"), Get("b")], vec![Get("a"), Scan]] }, if q { 1 } else { 2 }, if q { 10.0 } else { 300.0 }),
         b(KvBody { name: "write-stall(4 sealed)+worker", workers: 1, tiny: false, presealed: 4, jrot: false, initial: vec![], threads: vec![vec![Ins("a", "9"), Get("a")], vec![Get("p")]] }, if q { 1 } else { 2 }, if q { 8.0 } else { 200.0 }),
     ];
+    {
+        use crate::props::c06::{Act, Finals, Kind, VisBody};
+        v.push(BodySpec {
+            body: Arc::new(VisBody { name: "ingest(a,b) || insert a: point reads agree with scans", kind: Kind::Plain, workers: 0, keyspaces: vec!["x"], initial: vec![("x", "ab", "0")], prerotate: vec![], threads: vec![vec![Act::Ingest("x", vec![("a", "ingested"), ("b", "ingested")])], vec![Act::Ins(("x", "a", "written"))]], finals: Finals::PointVsScan }),
+            bound: 2,
+            secs: if q { 5.0 } else { 120.0 },
+        });
+    }
     if !q {
         v.push(b(KvBody { name: "journal-rotation+2workers", workers: 2, tiny: true, presealed: 0, jrot: true, initial: vec![("a", "0")], threads: vec![vec![Ins("a", "1"), Ins("b", "1")], vec![Rem("a"), Get("b")], vec![Get("a"), Scan]] }, 2, 300.0));
         v.push(b(KvBody { name: "3writers-same-key", workers: 0, tiny: false, presealed: 0, jrot: false, initial: vec![], threads: vec![vec![Ins("a", "1"), Get("a")], vec![Ins("a", "2"), Get("a")], vec![Ins("a", "3"), Get("a")]] }, 3, 300.0));
